@@ -22,6 +22,12 @@
 
 #if defined(__SANITIZE_ADDRESS__)
     #define VF_ASAN 1
+#elif defined(__has_feature)
+    #if __has_feature(address_sanitizer)
+        #define VF_ASAN 1
+    #else
+        #define VF_ASAN 0
+    #endif
 #else
     #define VF_ASAN 0
 #endif
